@@ -346,6 +346,18 @@ def r4(ck, F):
             drops = [i for i, blk in enumerate(b.blocks) if blk["term"]["k"] == "drop" and blk["term"]["place"].get("l") in holders and not blk.get("cleanup")]
             after = b.reachable(reads[0][1]["ret"], avoid=drops)
             ok = bool(drops) and not any(e in after for e in b.exits())
+        # ... and the value it was read out *of* never runs its own destructor: `mem::forget(self)` or
+        # `ManuallyDrop::new(self)` comes first on every path (otherwise the span handle exists twice: one more try_close
+        # than clone_span reaches the collector)
+        if reads:
+            neutral = [bb for bb, t in b.calls() if (t["callee"].get("path", "").endswith("mem::forget") or t["callee"].get("path", "").endswith("ManuallyDrop::<T>::new"))
+                       and "Instrumented" in " ".join(t["callee"].get("targs", []))]
+            k2 = "%s: the Instrumented value the span is read out of is forgotten first" % fn
+            if neutral and all(any(b.dominates(nb, rb) for nb in neutral) for rb, _ in reads):
+                ck.ok("C03.R4", k2, fn=fn)
+            else:
+                ck.bad("C03.R4", k2, where(b.raw["sp"]), "ptr::read::<Span> is not dominated by mem::forget(self) / ManuallyDrop::new(self): the original's Drop still runs and "
+                       "the collector sees the span closed twice", fn=fn)
         if ok:
             ck.ok("C03.R4", "%s drops the span it reads out" % fn, fn=fn)
         else:
